@@ -164,7 +164,7 @@ class C15(Prop):
             'New notice exactly when an unknown address speaks (next name), one Closed notice exactly when a known one is destroyed, connection '
             'list / open flags / roles / per-connection message counts equal the model, nothing raised out of stop(). real-gdb: message/destroy sequences compiled into a C mock of libwayland and run under the real '
             'gdb with the unmodified plugin, final connection list and notices compared with the stand-in run. non-trivial = history with a '
-            'destroy followed by reuse of the address, or a destroy of a never-seen address; distinct by SHA-1 of the op list. thousand-connections: 1001..1040 connections at 1-3 addresses destroyed and handed out again while one early connection stays open.')
+            'destroy followed by reuse of the address, or a destroy of a never-seen address; distinct by SHA-1 of the op list. thousand-connections: 1001..1040 connections at 1-3 addresses destroyed and handed out again while one early connection stays open. After every destroy the list of connections must still mark the connection the user selected.')
     assumptions = ['fakegdb stand-in for the gdb module (cross-checked against real gdb 13 on a generated C mock: stage real-gdb here and in C09)',
                    'address reuse is modelled as a new wl_connection object with the same numeric address']
     stages = [Machine(), ThousandConnections(), RealGdb()]
